@@ -7,7 +7,7 @@ from .. import scenario
 ID = "C20"
 LEVEL = "exploration"
 RULE = ("cases are directory trees (entries: regular file / directory with children / symlink to a file inside, "
-        "to a file outside DIR, or dangling) over the property's name set, with DIR spelled relative, ./relative, "
+        "to a file outside DIR, or dangling) over the property's name set (incl. names that are not valid UTF-8), with DIR spelled relative, ./relative, "
         "trailing slash, absolute or omitted; enumerated part = every 1- and 2-entry DIR over (name x kind); random part "
         "= Hypothesis trees with up to 8 entries and sub-directories. Non-trivial = DIR holds at least one regular "
         "*.mmm file AND (a near-miss name or a directory/symlink named *.mmm or a sub-directory holding *.mmm); "
@@ -16,7 +16,10 @@ ASSUMPTIONS = ["'.mmm' (no stem) is treated as ambiguous: it may be kept or remo
                "a symlink named *.mmm may be kept or removed, its target must stay untouched"]
 
 NAMES = ["x.mmm", "y.mmm", "x.ms", "x.mmm.bak", "x.transpiled.mmm", ".mmm", "mmm", "x.MMM", "x.mmm~",
-         "a b.mmm", "a.b.c.mmm", "é.mmm", "x.mmmm", "xmmm", "x.mm"]
+         "a b.mmm", "a.b.c.mmm", "é.mmm", "x.mmmm", "xmmm", "x.mm",
+         # names that are NOT valid UTF-8 (a Latin-1 e-acute, a lone 0xFF), spelled with Python's surrogate escapes:
+         # os.fsencode() turns "\udce9" into the single byte 0xE9
+         "caf\udce9.mmm", "\udcff.mmm", "x.mmm\udce9", "caf\udce9.ms"]
 KINDS = ["file", "dir", "ln_in", "ln_out", "ln_dangling"]
 SPELL = ["rel", "dotrel", "slash", "abs", "omitted"]
 
@@ -39,7 +42,7 @@ def build(case):
     for name, kind, children in case["entries"]:
         p = D + "/" + name
         if kind == "file":
-            files[p] = "content of " + name
+            files[p] = "content of " + show(name)
             if has_ext_mmm(name):
                 must_remove.append(p)
             elif name == ".mmm":
@@ -49,7 +52,7 @@ def build(case):
             for cn, ck in children:
                 cp = p + "/" + cn
                 if ck == "file":
-                    files[cp] = "child " + cn
+                    files[cp] = "child " + show(cn)
                 elif ck == "dir":
                     dirs.append(cp)
                 else:
@@ -76,6 +79,11 @@ def build(case):
           "asserts": [{"kind": "exit", "step": "clean", "in": ["ok"]},
                       {"kind": "c20_fs", "step": "clean", "must_remove": sorted(must_remove), "may_remove": sorted(may_remove)}]}
     return sc, must_remove, may_remove
+
+
+def show(p):
+    """a path as printable ASCII (names may hold bytes that are not UTF-8)"""
+    return p.encode("utf-8", "backslashreplace").decode("ascii", "backslashreplace")
 
 
 def snapshot(root):
@@ -114,22 +122,22 @@ def a_fs(a, res, ctx, phase=None):
     for p, v in exp.items():
         if p in a["must_remove"]:
             if p in got:
-                out.append("not removed: %s" % p)
+                out.append("not removed: %s" % show(p))
             else:
                 removed += 1
         elif p in a["may_remove"]:
             if p not in got:
                 removed += 1
             elif got[p] != v:
-                out.append("altered: %s" % p)
+                out.append("altered: %s" % show(p))
         else:
             if p not in got:
-                out.append("wrongly deleted: %s (%s)" % (p, v[0]))
+                out.append("wrongly deleted: %s (%s)" % (show(p), v[0]))
             elif got[p] != v:
-                out.append("altered: %s" % p)
+                out.append("altered: %s" % show(p))
     for p in got:
         if p not in exp:
-            out.append("unexpected new entry: %s" % p)
+            out.append("unexpected new entry: %s" % show(p))
     r = res[a["step"]]
     line = "Removed %d files" % removed
     if r.klass == "ok" and line not in r.stdout.split("\n"):
@@ -164,7 +172,7 @@ def check(case):
     labels = ["spell=" + case["spell"]] + ["kind=" + k for k in set(k for _, k, _ in case["entries"])]
     labels.append("entries=%d" % len(case["entries"]))
     r = CaseResult(nt_keys=[canon(case)] if nontrivial(case) else [], labels=labels,
-                   sample={"entries": case["entries"], "spell": case["spell"], "must_remove": must})
+                   sample={"entries": [(show(n), k, [(show(cn), ck) for cn, ck in ch]) for n, k, ch in case["entries"]], "spell": case["spell"], "must_remove": [show(m) for m in must]})
     if fails:
         r.failure = fail("; ".join(fails), signature(case, fails, res), sc, case=case)
     return r
